@@ -1,7 +1,7 @@
 //@ kani glob_enum
 //@ append src/find/matchers/glob.rs
 //@ module verif_enum_glob
-//@ harness e_fnmatch kind=enum props=C12 thorough_bound=<<every pattern of 0..=5 symbols over {a, b, *, ?, [, ], !, -, backslash, /, ^} x every subject of 0..=3 symbols over {a, b, ., /, [, backslash, newline, ^}; case-sensitive and caseless>> bound=<<every pattern of 0..=4 symbols over {a, b, *, ?, [, ], !, -, backslash, /, ^} x every subject of 0..=3 symbols over {a, b, ., /, [, backslash, newline, ^}; case-sensitive and caseless (subjects also with A)>> label=<<Pattern::matches(pattern, subject) == fnmatch(pattern, subject, 0) of the C library (FNM_CASEFOLD for the -i forms), on the whole string>>
+//@ harness e_fnmatch kind=enum props=C12 thorough_bound=<<every pattern of 0..=5 symbols over {a, b, *, ?, [, ], !, -, backslash, /, ^} x every subject of 0..=3 symbols over {a, b, ., /, [, backslash, newline, ^, *, ?}; case-sensitive and caseless>> bound=<<every pattern of 0..=4 symbols over {a, b, *, ?, [, ], !, -, backslash, /, ^} x every subject of 0..=3 symbols over {a, b, ., /, [, backslash, newline, ^, *, ?}; case-sensitive and caseless (subjects also with A)>> label=<<Pattern::matches(pattern, subject) == fnmatch(pattern, subject, 0) of the C library (FNM_CASEFOLD for the -i forms), on the whole string>>
 // The oracle is the POSIX function the property names: libc's fnmatch().
 #[cfg(verif_replay)]
 mod verif_enum_glob {
@@ -29,6 +29,8 @@ mod verif_enum_glob {
         let n = pick(if deep() { 6 } else { 5 });
         let pat: String = (0..n).map(|_| syms[pick(syms.len())]).collect();
         let caseless = pick(2) == 1;
+        // compiling the pattern must never panic, whatever the pattern (the comparisons below leave some patterns out)
+        let m = Pattern::new(&pat, caseless);
         // a backslash inside a bracket expression is read differently by POSIX RE brackets (ordinary) and by glibc (escape),
         // and the statement does not settle it: patterns with a backslash after an unescaped '[' are left out
         let cs: Vec<char> = pat.chars().collect();
@@ -38,8 +40,12 @@ mod verif_enum_glob {
         if let Some(o) = open { if cs[o..].contains(&'\\') { return; } }
         // POSIX: a bracket expression starting with an unquoted '^' produces unspecified results (glibc negates): left out
         if pat.contains("[^") { return; }
-        let m = Pattern::new(&pat, caseless);
-        let subs = if caseless { subjects(&["a", "A", "b", ".", "["], 3) } else { subjects(&["a", "b", ".", "/", "[", "\\", "\n", "^"], 3) };
+        // a range whose end points are in descending order is invalid in POSIX (undefined): left out
+        if let Some(o) = open { for w in cs[o..].windows(3) { if w[1] == '-' && w[2] != ']' && w[0] > w[2] { return; } } }
+        // case folding of a range whose end points are not both letters is not defined by the statement (glibc folds the end points,
+        // onig accepts any case variant inside the range): caseless runs leave ranges out
+        if caseless { if let Some(o) = open { if cs[o..].contains(&'-') { return; } } }
+        let subs = if caseless { subjects(&["a", "A", "b", ".", "["], 3) } else { subjects(&["a", "b", ".", "/", "[", "\\", "\n", "^", "*", "?"], 3) };
         for s in &subs {
             let (got, want) = (m.matches(s), libc_fnmatch(&pat, s, caseless));
             if got != want { eprintln!("  input pattern {pat:?} subject {s:?} caseless {caseless}: find says {got}, fnmatch() says {want}"); }
